@@ -50,6 +50,9 @@ CLAIMED = {
  "C18": dict(engine="E1", design="§5 C18", technique="bounded exhaustive enumeration of integer windows against literal limits",
      text="Every integer within 2^16 (quick) / 2^20 (thorough) of zero, every power of two and every type/range limit, plus all u32/i32 values (thorough), is pushed through every public conversion, comparison and serde_json path of U53/I54 and judged against independently written limits.",
      note="Values outside the windows are not visited; random draws are deliberately not used."),
+ "C20": dict(engine="E1+S-cli", design="§5 C20", technique="exhaustive configuration matrix executed on the real binary vs the precedence reference model (CLI > file > default)",
+     text="The complete 2^5 × 2^5 presence matrix of the five double-homed settings with pairwise distinct values × the four languages they affect (4096 runs); 16 file-only tables each loaded via -c and via discovery; config discovery from every cwd depth 0–3 with files at one or two ancestor levels with/without -c; -g for all 32 CLI subsets (reload equivalence, overwrite protection, default location). Effective values are read back from the generated code with the extractors.",
+     note="Values are fixed distinct strings; tables are a fixed list of 16. The scratch directory's ancestors must not contain a typeshare.toml."),
 }
 NOT_YET = {}
 def main():
